@@ -128,6 +128,7 @@ def check(model, rep):
                 accepted.append((left, op, right))
                 ok_kind = ok_si = ok_unit = True
                 detail_k = detail_s = detail_u = ''
+                udep = False
                 for o in rets:
                     v = o.value if o.kind == 'return' else None
                     if isinstance(v, Q):
@@ -143,6 +144,12 @@ def check(model, rep):
                         if not ctx.eq(term, expect[op]):
                             ok_si = False
                             detail_s = f'SI(result) = {ctx.show(ctx.reduce(term))[:160]} instead of S {op} O (line {o.loc})'
+                            fs = [a for a in (term.n.atoms() | term.d.atoms()) if a.startswith('F[')]
+                            if fs:
+                                from fractions import Fraction
+                                t1 = ctx.subst(term, {a: Rat.const(1) for a in fs})
+                                t2 = ctx.subst(term, {a: Rat.const(Fraction(7, 3)) for a in fs})
+                                udep = udep or not ctx.eq(t1, t2)
                     # unit rule relied upon by the formula checks: same-family / scalar results keep the
                     # receiver's unit, cross-kind results are expressed in the SI unit
                     if isinstance(v, Q) and v.unit is not None:
@@ -157,7 +164,7 @@ def check(model, rep):
                                 ok_unit = False
                                 detail_u = f'cross-kind result expressed in {v.unit!r}, expected the SI unit'
                 rep.decide(ok_kind, 'C06.kind', where if not ok_kind else name, detail_k, loc=loc, triple=name)
-                rep.decide(ok_si, 'C06.si-semantics', where if not ok_si else name, detail_s, loc=loc, triple=name)
+                rep.decide(ok_si, 'C06.si-semantics', where if not ok_si else name, detail_s, loc=loc, triple=name, unit_dependent=udep)
                 rep.decide(ok_unit, 'C06.unit-rule', where if not ok_unit else name, detail_u, loc=loc, triple=name)
     for t in REQUIRED:
         if t[0] in kinds and t[2] in kinds:
